@@ -19,7 +19,7 @@ RULE = ('(a) every array of size n over {0, 1e-4, 0.01, 0.02, 0.5, 1, NaN} (7^n 
         'plus levels equal to an alphabet value (exact boundary): Bonferroni flags p <= L, Holm flags rank k iff p_(k) < L/(m-k+1), tie '
         'groups judged as multisets, alphas_i and flags at the original positions; (b) the classes over TestStudent on datasets built '
         'from a t-value alphabet {0, 0.5, 2, 2.7, 3.5, 5, inf, NaN}^n, 1-2 compared datasets, shapes scalar/(n,)/(2,2)/transposed, '
-        'alpha in {0.01, 0.05, 0.5}: flags, verdict, nb_rejected, Bonferroni-subset-of-Holm, bin-by-bin pass implies both pass; '
+        'alpha in {0.01, 0.05, 0.5}, the wrapped Student test at the same level or at 0.001 / 0.2: flags, verdict, nb_rejected, Bonferroni-subset-of-Holm, bin-by-bin pass implies both pass; '
         'non-trivial = arrays with a tie, a NaN, a 0 or a 1, or a non-contiguous layout')
 ASSUMPTIONS = ['the overall level of the classes is alpha/2, as they document and as the property mechanism records',
                'Bonferroni-subset-of-Holm is not judged exactly at p = level/m (unsatisfiable there by the two stated definitions)',
